@@ -1312,8 +1312,11 @@ Definition marker_dir := list mfile.
 Definition glob_meta_files (d : marker_dir) : list mfile := d.
 Definition json_load (f : mfile) : option jval := f.
 Definition is_dict (o : option jval) : bool := match o with Some (JDict _) => true | _ => false end.
-(* `"n_unobserved_plates" not in o`: evaluated only behind `not isinstance(o, dict) or`, i.e. on a dict *)
-Definition lacks_nup (o : option jval) : bool := match o with Some (JDict (Some _)) => false | _ => true end.
+(* `"n_unobserved_plates" not in o`: a key test on a dict only; on None or a number it is a TypeError, on a list / string it
+   would be an element / substring test (JOther does not say which document it is): an exception (96) in the model - the source
+   evaluates it only behind `not isinstance(o, dict) or`, and the link proves that this exception is never reached *)
+Definition lacks_nup (o : option jval) : sres bool :=
+  match o with Some (JDict (Some _)) => SOk false | Some (JDict None) => SOk true | _ => SRaised [] 96 end.
 Definition whole_meta (m : Z) : jval := JDict (Some m).
 Definition marker_dir_of (torn : torn_set) (p : plate_path) : marker_dir :=
   if is_torn torn (fst p) then [None]
